@@ -425,8 +425,13 @@ def refresh_handshake(ctx):
         # leaving the refresh state only on refresher.cmd.last
         outs = [l for r_ in ref_states for l in v.fsm_leaves(f, r_) if l.kind == "next"]
         for l in outs:
-            if "refresher.cmd.last" not in v.guard_keys(l):
-                ob.refute("leave-refresh/%d" % nbm, "multiplexer leaves the refresh state without refresher.cmd.last (%s)" % l, l.loc)
+            gk = v.guard_keys(l)
+            if "refresher.cmd.last" not in gk:
+                if any("refresher." in a for a in gk):
+                    ob.unknown("nbanks=%d: the multiplexer leaves the refresh state under %s, another handshake of the refresher than cmd.last: whether that "
+                               "marks the end of the sequence is the refresher's business and not decided here" % (nbm, sorted(gk)))
+                else:
+                    ob.refute("leave-refresh/%d" % nbm, "multiplexer leaves the refresh state without refresher.cmd.last (%s)" % l, l.loc)
 
 
 def steering(ctx):
